@@ -147,6 +147,21 @@ PROPS.update({
     },
 })
 
+_C18_GENS = ["C01", "C02", "C06", "C07", "C09", "C10", "C11", "C14", "C16", "C17", "C19"]
+_C18_MORE = ["C03", "C05", "C08", "C15"]
+PROPS.update({
+    "C18": {
+        "runs": [(g, "std", "c18") for g in _C18_GENS] + [("C04", "std", "c18"), ("C04", "nostd", "c18")]
+                + [(g, "std", "c18", "thorough") for g in _C18_MORE],
+        "rule": "the generators of the other checks (quick: C01 C02 C04(both feature configurations) C06 C07 C09 C10 C11 C14 C16 C17 C19; thorough: all of them) are re-run with every implementation call inside catch_unwind and an allocation-counting region of the harness's global allocator (harness built with opt-level 1, overflow checks and debug assertions on). A record fails if the implementation panics where the model does not (or vice versa), or if a non-panicking call allocated. distinct = distinct inputs; non-trivial = some value observed",
+        "exhaustive": {},
+        "level_text": "PARTIAL. Proved in Coq: every modelled panic site (assert!, expect, unreachable!, array indexing, overflow) is dead on valid input, for all inputs and all histories, and the documented panics occur exactly when documented. Not provable in a Gallina model: absence of heap allocation, which is a property of the compiled Rust code; it is monitored on every implementation call of this run by a counting global allocator",
+        "technique": "machine-checked proof in Coq 8.16 (panic freedom of the model) + runtime monitoring of allocations and panics on the implementation (counting allocator, catch_unwind)",
+        "assumptions": ["heap-allocation freedom is monitored on the explored calls only, not proved",
+                        "opt-level 1 so that allocations are not optimised away"],
+    },
+})
+
 HOOK_COMMITS = ["8ffd056"]
 FIX_COMMITS = ["f23ae2b", "0a7a8ec", "6f3a6a3", "7110a3c", "3bb8a42", "efa1406"]
 NOT_YET = {}
